@@ -49,6 +49,9 @@ pub fn ret_ty(shape: i64, l: i64) -> String {
     }
 }
 
+/// method name: m<position>, or n<id> when the intmode field carries a name id (intmode / 16)
+pub fn mname(k: usize, row: &[i64]) -> String { if row[1] / 16 > 0 { format!("n{}", row[1] / 16) } else { format!("m{}", k) } }
+
 /// method row: [recv, intmode, ret_shape, ret_leaf, nargs, (shape, leaf)*]
 pub fn render_trait(name: &str, trait_int: i64, rows: &[Vec<i64>]) -> String {
     let mut s = String::new();
@@ -64,7 +67,7 @@ pub fn render_trait(name: &str, trait_int: i64, rows: &[Vec<i64>]) -> String {
         let n = r[4] as usize;
         let mut args = String::new();
         for i in 0..n { args.push_str(&format!(", a{}: {}", i, arg_ty(r[5 + 2 * i], r[6 + 2 * i]))); }
-        s.push_str(&format!("    fn m{}{}({}{}){}{}\n", k, if lt { "<'a>" } else { "" }, recv, args, ret_ty(r[2], r[3]), if has_default { " { loop {} }" } else { ";" }));
+        s.push_str(&format!("    fn {}{}({}{}){}{}\n", mname(k, r), if lt { "<'a>" } else { "" }, recv, args, ret_ty(r[2], r[3]), if has_default { " { loop {} }" } else { ";" }));
     }
     s.push_str("}\n");
     s
@@ -123,7 +126,7 @@ fn find_items<'a>(items: &'a [Item], out: &mut Vec<&'a Item>) {
     }
 }
 
-pub fn abstract_trait(name: &str, nmeth: usize, expansion: &str) -> std::result::Result<Vec<Vec<i64>>, String> {
+pub fn abstract_trait(name: &str, mrows: &[Vec<i64>], expansion: &str) -> std::result::Result<Vec<Vec<i64>>, String> {
     let file = syn::parse_file(expansion).map_err(|e| format!("expansion does not parse: {}", e))?;
     let mut items = vec![];
     find_items(&file.items, &mut items);
@@ -150,8 +153,8 @@ pub fn abstract_trait(name: &str, nmeth: usize, expansion: &str) -> std::result:
     // ---- trait impl on the opaque object
     let timpl = items.iter().find_map(|i| if let Item::Impl(im) = i { if im.trait_.as_ref().map(|t| { let n = norm(&t.1); n == name || n == format!("{}<>", name) }).unwrap_or(false) { Some(im) } else { None } } else { None }).ok_or("no trait impl")?;
     let mut rows = vec![];
-    for k in 0..nmeth {
-        let mname = format!("m{}", k);
+    for k in 0..mrows.len() {
+        let mname = mname(k, &mrows[k]);
         let mut row: Vec<i64> = vec![];
         // slot position and signature
         let pos = fields.iter().position(|f| f.ident.as_ref().unwrap() == &mname);
@@ -298,7 +301,7 @@ pub fn run_ir() {
         });
         match out {
             Err(_) => println!("-7 # fails=generator_panicked"),
-            Ok(exp) => match abstract_trait("Tr", rows.len(), &exp) {
+            Ok(exp) => match abstract_trait("Tr", &rows, &exp) {
                 Err(e) if std::env::var("IR_DEBUG").is_ok() => { crate::debug_impls(&exp); println!("-8 # fails={}", e.replace(' ', "_")) }
                 Ok(ir) => println!("{} # fails=-", ir.iter().map(|r| r.iter().map(|v| v.to_string()).collect::<Vec<_>>().join(" ")).collect::<Vec<_>>().join(" ; ")),
                 Err(e) => println!("-8 # fails={}", e.replace(' ', "_")),
